@@ -11,7 +11,9 @@ EXPLANATION = (
     "R5 dtype refresh and value re-store follow the last size write on every path, derived fields are written only by resize, other writers "
     "of format fields always finish through resize; R6 clamp argument roles, no narrowing cast before the clamp; R7 function results are "
     "rebuilt through the constructor or out.set_val. Residual: values returned by NumPy fallbacks (_wrapped_numpy_func); Python ints in "
-    "[2^63, 2^64) hit the known int64 carrier finding reported under C19.")
+    "[2^63, 2^64) hit the known int64 carrier finding reported under C19."
+    ' Added after the third round of seeded changes: the word cap and the size assembly of set_best_sizes (C06.R2/R3), both range tests of the overflow handler (C04.R1), the machine carrier int64/uint64 (C18.R5) and the absence of class-level state writes (C20.R7) are included because the well-formedness of produced objects leans on them.'
+)
 ASSUMPTIONS = ["attribute writes through setattr()/__dict__ are not used for format fields (checked: only copy of whole __dict__ in the constructor)"]
 TRUSTED = ["CPython ast", "fxlint term normaliser (cross-checked on an integer grid when terms differ)"]
 
